@@ -4,6 +4,8 @@ import CookModel.Lemmas.ParsedScaledRefs
 import CookModel.Props.C09
 import CookModel.Lemmas.GroupWhole
 import CookModel.Lemmas.GroupOutcome
+import CookModel.Props.C08
+import CookModel.Lemmas.FractionSat
 /-
   C10  Grouping and listing ingredients conserves quantities.
 
@@ -851,5 +853,252 @@ example : ((fromRecipe idOrd cB twoDefs).map
     foldOutcome [.scaled, .error, .fixed] 0 [2, 1] = some .error ∧
     foldOutcome [.scaled, .noQuantity] 0 [1] = some .scaled := by
   decide +kernel
+
+-- ===== w10c10fold =====
+
+/-- **The outcome reported for a grouped ingredient of THIS scaled recipe** (`group_ingredients` run on what
+    `parse` + `scale(factor)` returned; instance of `C10_grouped_outcome` with the outcome vector `scale` actually
+    produced, `C08_outcomes_align`, and the reference tables C06 guarantees, `C10_parsed_recipe_consistent`).
+    For every input, environment, converter and factor, and for the ingredient at ANY index `d` of the scaled recipe
+    (in the code: every definition):
+    * the outcome vector has an entry `own` for `d`, and an entry for each `referenced_from` index — the fold never
+      hits the index panic;
+    * each of these entries is the outcome of the PARSED ingredient at that index (`outcomeOf`: no quantity / `Fixed`
+      / `Scaled`), and none is `Error`;
+    * the fold is `Fixed` if the definition or one of its references was fixed, else the definition's own outcome —
+      the outcomes of exactly `d :: referenced_from` (`groupIndices`) and of nothing else. -/
+theorem C10_grouped_outcome_of_scaled (env : Env) (input : Str) (c : Col Rat)
+    (h : (parseRecipe (α := Rat) env input).output = some c) (cv : Converter Rat) (f : Rat)
+    (d : Nat) (i : Ingredient (Value Rat))
+    (hd : (recipeScale cv c.toRecipe f).1.ingredients[d]? = some i) :
+    ∃ own, (recipeScale cv c.toRecipe f).2.ingredients[d]? = some own ∧
+      (∀ j ∈ groupIndices i d, ∃ o ij, (recipeScale cv c.toRecipe f).2.ingredients[j]? = some o ∧
+        c.ingredients[j]? = some ij ∧ o = outcomeOf (ij.quantity.map (·.value)) ∧ o ≠ .error) ∧
+      foldOutcome (recipeScale cv c.toRecipe f).2.ingredients d i.relation.relation.referencedFrom =
+        some (if (groupIndices i d).any
+            (fun j => decide ((recipeScale cv c.toRecipe f).2.ingredients[j]? = some .fixed)) then .fixed else own) := by
+  have hps : ParsedScaled (recipeScale cv c.toRecipe f).1 := ⟨env, input, c, h, Or.inl ⟨cv, f, rfl⟩⟩
+  have hrange := (C10_parsed_recipe_consistent hps).2
+  obtain ⟨halign, _, _, hlen, _, _⟩ := C08_outcomes_align cv c.toRecipe f
+  have hnoerr := (C08_parsed_recipe_outcomes env input c h cv c.toRecipe rfl rfl rfl f).1
+  have hdlt : d < (recipeScale cv c.toRecipe f).1.ingredients.length := (List.getElem?_eq_some_iff.mp hd).1
+  have hrefs : ∀ j ∈ i.relation.relation.referencedFrom, j < (recipeScale cv c.toRecipe f).2.ingredients.length := by
+    intro j hj
+    rw [hlen]
+    exact hrange i (List.mem_of_getElem? hd) j hj
+  have hentry : ∀ j, j < (recipeScale cv c.toRecipe f).2.ingredients.length →
+      ∃ o ij, (recipeScale cv c.toRecipe f).2.ingredients[j]? = some o ∧
+        c.ingredients[j]? = some ij ∧ o = outcomeOf (ij.quantity.map (·.value)) ∧ o ≠ .error := by
+    intro j hj
+    have hj' : j < c.ingredients.toList.length := by
+      have := hj
+      rw [halign] at this
+      simpa [Col.toRecipe] using this
+    have hq : (recipeScale cv c.toRecipe f).2.ingredients[j]? =
+        some (outcomeOf ((c.ingredients.toList[j]).quantity.map (·.value))) := by
+      rw [halign, List.getElem?_map]
+      simp [Col.toRecipe, List.getElem?_eq_getElem hj']
+    refine ⟨_, c.ingredients.toList[j], hq, ?_, rfl, hnoerr _ (List.mem_of_getElem? hq)⟩
+    rw [← Array.getElem?_toList]; exact List.getElem?_eq_getElem hj'
+  have hdo : d < (recipeScale cv c.toRecipe f).2.ingredients.length := by rw [hlen]; exact hdlt
+  refine ⟨(recipeScale cv c.toRecipe f).2.ingredients[d], List.getElem?_eq_getElem hdo, ?_, ?_⟩
+  · intro j hj
+    rcases List.mem_cons.mp hj with rfl | hj
+    · exact hentry _ hdo
+    · exact hentry j (hrefs j hj)
+  · rw [C10_grouped_outcome _ d _ _ (List.getElem?_eq_getElem hdo) hrefs]
+    have hne : (d :: i.relation.relation.referencedFrom).any
+        (fun j => decide ((recipeScale cv c.toRecipe f).2.ingredients[j]? = some .error)) = false := by
+      rw [List.any_eq_false]
+      intro j _ hje
+      have hje := of_decide_eq_true hje
+      exact hnoerr _ (List.mem_of_getElem? hje) rfl
+    rw [hne]
+    rfl
+
+/-- an environment with the component-modifier extension (so `@&a` is a reference), no known units -/
+def C10_exEnvRefs : Env :=
+  ⟨toyCharSpec, ⟨Gen.EXT_COMPONENT_MODIFIERS⟩, fun _ => none, fun _ _ => .ok, fun c => [c], 0⟩
+
+/-- the hypotheses of `C10_grouped_outcome_of_scaled` are satisfiable and the statement speaks about something:
+    `@a{1}`, `@&a{=2}`, `@b` parses to a definition with `referenced_from = [1]`; scaled by 2 with the bundled
+    converter the outcomes are `Scaled, Fixed, NoQuantity`, and the definition's group (indices 0 and 1) folds to
+    `Fixed` — `@b`'s `NoQuantity` at index 2 plays no part -/
+example : ((parseRecipe (α := Rat) C10_exEnvRefs "@a{1}\n\n@&a{=2}\n\n@b\n".toList).output.map (fun c =>
+   ((recipeScale (Converter.bundled Rat) c.toRecipe 2).1.ingredients.map (·.relation.relation.referencedFrom),
+    (recipeScale (Converter.bundled Rat) c.toRecipe 2).2.ingredients,
+    foldOutcome (recipeScale (Converter.bundled Rat) c.toRecipe 2).2.ingredients 0 [1]))) =
+   some ([[1], [], []], [.scaled, .fixed, .noQuantity], some .fixed) := by decide +kernel
+
+/-! ### saturation of the fraction approximation (`Number::new_approx`, guard `whole == u32::MAX`) -/
+
+/-- **A fraction `new_approx` returns is never a saturated one.**  For every table, value, accuracy and limits: if
+    `Number::new_approx(value, …)` returns the fraction `whole num/den (+err)`, then
+    * it stands for exactly `value` (`whole + num/den + err = value`), `whole ≤ max_whole`, and `value` is below
+      `u32::MAX` (so the cast `value.trunc() as u32` did not saturate);
+    * EITHER (table branch) `whole` is the integral part of `value`: `whole < u32::MAX` and
+      `whole ≤ value < whole + 1`;
+    * OR (rounded branch, `num/den = 0/1`) `whole` is `value` rounded: `whole - 1/2 ≤ value < whole + 1/2`.
+    Without the guard `whole == u32::MAX` (seeded change C10-1 of round 8) `4294967296.5` was returned as
+    `4294967295 1/2`: the first disjunct fails (`whole + 1 ≤ value`) and so does the second. -/
+theorem C10_new_approx_no_saturation (t : List FracEntry) (v acc : Rat) (maxDen maxWhole w n d : Nat) (e : Rat)
+    (h : newApprox t v acc maxDen maxWhole = some (.fraction w n d e)) :
+    (Number.fraction w n d e).value = v ∧ w ≤ maxWhole ∧ v < ((u32Max : Nat) : Rat) ∧
+    ((w = wholeOf v ∧ w < u32Max ∧ (w : Rat) ≤ v ∧ v < (w : Rat) + 1) ∨
+     (n = 0 ∧ d = 1 ∧ (w : Rat) = ((ratRound v : Int) : Rat) ∧ (w : Rat) - 1/2 ≤ v ∧ v < (w : Rat) + 1/2)) := by
+  have hval := newApprox_value t v acc maxDen maxWhole _ h
+  obtain ⟨hv, hw, hne, hc⟩ := newApprox_cases t v acc maxDen maxWhole _ h
+  have hv0 : 0 ≤ v := Rat.le_of_lt hv
+  refine ⟨hval, ?_, fsat_lt_u32Max hv0 hne, ?_⟩
+  · rcases hc with ⟨h1, _⟩ | ⟨h1, _, _, h4⟩ | ⟨e', _, h1, _⟩
+    · cases h1
+    · cases h1; exact h4
+    · cases h1; exact hw
+  · rcases hc with ⟨h1, _⟩ | ⟨h1, _, _, h4⟩ | ⟨e', _, h1, _⟩
+    · cases h1
+    · cases h1
+      right
+      have hr := roundedOf_exact hv0 hne
+      have hb := fsat_round_bounds hv0
+      refine ⟨rfl, rfl, hr, ?_, ?_⟩
+      · rw [hr]; exact hb.1
+      · rw [hr]; exact hb.2
+    · cases h1
+      left
+      have hb := fsat_wholeOf_bounds hv0 hne
+      have hle := @fsat_wholeOf_lt v
+      exact ⟨rfl, by omega, hb.1, hb.2⟩
+
+/-- **`new_approx` refuses every value from `u32::MAX` on** — whatever the table, accuracy and limits (also
+    `max_whole = u32::MAX`, the default configuration): such a value stays a plain number. -/
+theorem C10_new_approx_refuses_beyond_u32 (t : List FracEntry) (v acc : Rat) (maxDen maxWhole : Nat)
+    (hbig : ((u32Max : Nat) : Rat) ≤ v) : newApprox t v acc maxDen maxWhole = none := by
+  cases hn : newApprox t v acc maxDen maxWhole with
+  | none => rfl
+  | some n =>
+    obtain ⟨hv, _, hne, _⟩ := newApprox_cases t v acc maxDen maxWhole n hn
+    have := fsat_lt_u32Max (Rat.le_of_lt hv) hne
+    exact absurd hbig (Rat.not_le.mpr this)
+
+/-- **Adding quantities to a group and fitting it conserves the total, with no bound on the amounts** — in particular
+    when the total exceeds `2^32` (the regression behind seeded change C10-1: `2147483648.5 cup + 2147483648 cup`
+    fitted to `4294967295 1/2 cup`, two cups less than the sum).  For every sound converter, every hash order, every
+    list of quantities `qs` and every linear class: the group built from `qs` and then fitted (whether `fit` returns
+    `Ok` or stops at an error) holds — per class total, both ends, and texts — exactly `qs`; and every number the
+    converter's approximation (`Converter::approx` = `Number::new_approx` with the unit's configuration, the only
+    place where `fit` makes a fraction: `tryApprox`, `fracCandidates`, `fitFractionApply`) returns stands for exactly
+    the value it was given, which is then below `u32::MAX`. -/
+theorem C10_fit_conserves_beyond_u32 {c : Converter Rat} (hc : c.Sound) (ord : MapOrder Rat) (hord : ord.IsPerm)
+    (qs : List (SQuantity Rat)) (cls : QClass) (hlin : LinearClass c cls) :
+    Holds c cls (((addAll c empty qs).fit c).1.iter ord) qs ∧
+    (∀ (v : Rat) (cfg : FracCfg Rat) (n : Number Rat), c.approx v cfg = some n →
+      n.value = v ∧ v < ((u32Max : Nat) : Rat)) ∧
+    (∀ (v : Rat) (cfg : FracCfg Rat), ((u32Max : Nat) : Rat) ≤ v → c.approx v cfg = none) := by
+  refine ⟨?_, ?_, ?_⟩
+  · obtain ⟨h1, h2⟩ := C10_fit_conserves hc ord hord (addAll c empty qs) cls
+    have hfit : Holds c cls (((addAll c empty qs).fit c).1.iter ord) ((addAll c empty qs).iter ord) :=
+      ⟨by rw [h1], by rw [h1], h2⟩
+    exact hfit.trans (C10_adds_conserve hc ord hord empty qs cls hlin).2
+  · intro v cfg n hn
+    obtain ⟨hv, _, hne, _⟩ := newApprox_cases _ v _ _ _ n hn
+    exact ⟨newApprox_value _ v _ _ _ n hn, fsat_lt_u32Max (Rat.le_of_lt hv) hne⟩
+  · intro v cfg hbig
+    exact C10_new_approx_refuses_beyond_u32 _ v _ _ _ hbig
+
+namespace C10Witness
+def cupText : Str := ['c', 'u', 'p']
+/-- `2147483648.5 cup` and `2147483648 cup`: the sum `4294967296.5` is above `2^32` -/
+def bigCups : List (SQuantity Rat) := [num (4294967297/2) (some cupText), num 2147483648 (some cupText)]
+end C10Witness
+
+open C10Witness in
+/-- the statements speak about something (exact table, accuracy 5 %, `max_whole = u32::MAX`):
+    `2.5` becomes `2 1/2` (table branch); `2147483647.75` becomes `2147483647 3/4` (table branch, a large whole; accuracy 1e-11, with 5 % it is rounded);
+    `4294967294.5` becomes the ROUNDED `4294967295 - 0.5` — the only way a whole part equal to `u32::MAX` is ever
+    returned, and it is exact (second disjunct; this is why `whole < u32::MAX` is claimed for the table branch only);
+    `4294967296.5` is refused.  With the bundled converter `2147483648.5 cup + 2147483648 cup`, grouped and fitted,
+    is the plain number `4294967296.5 c` and the volume total of the fitted group is that of the two inputs. -/
+example : newApprox ratTable (5/2 : Rat) (5/100) 4 u32Max = some (.fraction 2 1 2 0) ∧
+    newApprox ratTable (8589934591/4 : Rat) (1/100000000000) 4 u32Max = some (.fraction 2147483647 3 4 0) ∧
+    newApprox ratTable (8589934589/2 : Rat) (5/100) 4 u32Max = some (.fraction 4294967295 0 1 (-1/2)) ∧
+    newApprox ratTable (8589934593/2 : Rat) (5/100) 4 u32Max = none ∧
+    ((GroupedQuantity.fit cB (addAll cB empty bigCups)).1.iter idOrd) =
+      [⟨.number (.regular (8589934593/2)), some ['c']⟩] ∧
+    total cB (.known .volume) ((GroupedQuantity.fit cB (addAll cB empty bigCups)).1.iter idOrd) =
+      total cB (.known .volume) bigCups ∧
+    (total cB (.known .volume) bigCups).1 = (8589934593/2) * (59147059/250000000) := by
+  decide +kernel
+
+/-- the hypotheses of `C10_fit_conserves_beyond_u32` hold for the bundled converter and its volume class -/
+example : Holds C10Witness.cB (.known .volume)
+    (((addAll C10Witness.cB empty C10Witness.bigCups).fit C10Witness.cB).1.iter C10Witness.idOrd) C10Witness.bigCups :=
+  (C10_fit_conserves_beyond_u32 C09_bundled_sound C10Witness.idOrd C10Witness.idOrd_isPerm C10Witness.bigCups (.known .volume)
+    (C10_bundled_linear _ (by decide))).1
+
+/-- **`fit` never writes a saturated fraction** — for EVERY converter (no invariant needed), quantity, group and hash
+    order.  `Number.NotSaturated` (Lemmas/FractionSat.lean): a plain number, or a fraction whose written whole part is
+    the integral part of, or the rounding of, the value it stands for (`whole - 1/2 ≤ value < whole + 1`) with the
+    value below `u32::MAX`.
+    * If the numbers of a quantity (both ends of a range) are not saturated, neither are those of
+      `ScaledQuantity::fit` of it, whether it returns `Ok` or an error;
+    * if the numbers of everything a group yields are not saturated, neither are those of everything
+      `GroupedQuantity::fit` of it yields.
+    In particular a group of plain numbers — what `add` of plain numbers builds — is fitted to plain numbers and
+    honest fractions only, however large its totals are: with `C10_fit_conserves_beyond_u32`, what is WRITTEN
+    (`whole num/den`) is within one unit of the conserved total.  Proof: the only constructor of fractions on the
+    fit path is `Converter::approx` (`fnum_fit`, `fnum_group_fit`: `tryFraction`, `fracCandidates`/`min_by`,
+    `fitFractionApply`, `convertImpl`), and `C10_new_approx_no_saturation`. -/
+theorem C10_fit_never_saturates (c : Converter Rat) :
+    (∀ q : SQuantity Rat, q.value.AllNum Number.NotSaturated → (Cook.fit c q).1.value.AllNum Number.NotSaturated) ∧
+    (∀ (ord : MapOrder Rat) (g : GroupedQuantity Rat),
+      (∀ q ∈ g.iter ord, q.value.AllNum Number.NotSaturated) →
+      ∀ q ∈ (g.fit c).1.iter ord, q.value.AllNum Number.NotSaturated) :=
+  ⟨fun q hq => fnum_fit (fsat_approxClosed c) q hq, fun ord g hg => fnum_group_fit (fsat_approxClosed c) ord g hg⟩
+
+open C10Witness in
+/-- the hypothesis is satisfiable and the conclusion speaks about fractions: with the bundled converter
+    `1.25 cup + 1.25 cup` (plain numbers) is fitted to `2 1/2 c`, `1073741823.875 cup` twice to the rounded
+    `2147483648 (-0.25) c`; the group of `bigCups` consists of plain numbers -/
+example : ((GroupedQuantity.fit cB (addAll cB empty [num (5/4) (some cupText), num (5/4) (some cupText)])).1.iter idOrd) =
+      [⟨.number (.fraction 2 1 2 0), some ['c']⟩] ∧
+    ((GroupedQuantity.fit cB (addAll cB empty
+        [num (8589934591/8) (some cupText), num (8589934591/8) (some cupText)])).1.iter idOrd) =
+      [⟨.number (.fraction 2147483648 0 1 (-1/4)), some ['c']⟩] ∧
+    ((addAll cB empty bigCups).iter idOrd) = [⟨.number (.regular (8589934593/2)), some cupText⟩] := by
+  decide +kernel
+
+example : ∀ q ∈ (addAll C10Witness.cB empty C10Witness.bigCups).iter C10Witness.idOrd,
+    q.value.AllNum Number.NotSaturated := by
+  have h : ((addAll C10Witness.cB empty C10Witness.bigCups).iter C10Witness.idOrd) =
+      [⟨.number (.regular (8589934593/2)), some C10Witness.cupText⟩] := by decide +kernel
+  rw [h]
+  intro q hq
+  simp only [List.mem_singleton] at hq
+  subst hq
+  trivial
+
+/-- **Grouping and fitting never writes a saturated fraction**: for every converter, every hash order and every list
+    of quantities whose own numbers are not saturated (every plain number is; a written `1 1/2` is), everything the
+    group built from them by `add` and then fitted yields consists of plain numbers and non-saturated fractions.
+    (`add` stores an input as it is or a sum, and a sum is always a plain number — `Value::try_add`; `fit`:
+    `C10_fit_never_saturates`.)  Together with `C10_fit_conserves_beyond_u32`: the group holds exactly the inputs
+    AND what it shows for them is honest, with no bound on the amounts. -/
+theorem C10_add_fit_never_saturates (c : Converter Rat) (ord : MapOrder Rat) (hord : ord.IsPerm)
+    (qs : List (SQuantity Rat)) (hqs : ∀ q ∈ qs, q.value.AllNum Number.NotSaturated) :
+    (∀ q ∈ (addAll c empty qs).iter ord, q.value.AllNum Number.NotSaturated) ∧
+    (∀ q ∈ ((addAll c empty qs).fit c).1.iter ord, q.value.AllNum Number.NotSaturated) := by
+  have h1 := fnum_iter_of_allNum ord hord
+    (fnum_addAll (c := c) (fsat_approxClosed c).regular qs empty fnum_empty hqs)
+  exact ⟨h1, (C10_fit_never_saturates c).2 ord _ h1⟩
+
+/-- its hypothesis holds of the two large cup quantities (plain numbers) and of a written `1 1/2` -/
+example : (∀ q ∈ C10Witness.bigCups, q.value.AllNum Number.NotSaturated) ∧
+    (Number.fraction 1 1 2 0 : Number Rat).NotSaturated := by
+  refine ⟨?_, ?_⟩
+  · intro q hq
+    simp only [C10Witness.bigCups, List.mem_cons, List.not_mem_nil, or_false] at hq
+    rcases hq with rfl | rfl <;> trivial
+  · simp only [Number.NotSaturated]
+    decide +kernel
 
 end Cook
